@@ -19,7 +19,7 @@ EXPLANATION = (
     "individual -> -1, NULL metadata -> empty rows) after rejecting missing mandatory columns and ill-formed "
     "offsets, set_columns makes the table exactly those rows, extend appends the selected rows of another table "
     "in order after checking every index (ghost cumulative-length function). keep_rows of the node table and of "
-    "the self-referencing mutation table: the table becomes the sub-list of kept rows (every column, ragged "
+    "the self-referencing mutation and individual tables: the table becomes the sub-list of kept rows (every column, ragged "
     "boundaries and bytes, representation invariant), each parent - pointing backwards or forwards - is replaced by "
     "the new index of the row it names, and a kept row whose parent is out of range or dropped is rejected with "
     "the table left as it was. The "
@@ -44,6 +44,8 @@ C_FUNCS = [
     ("tables.c", "tsk_node_table_append_columns"), ("tables.c", "tsk_node_table_set_columns"),
     ("tables.c", "tsk_node_table_extend"),
     ("tables.c", "tsk_node_table_keep_rows"), ("tables.c", "tsk_mutation_table_keep_rows"),
+    ("tables.c", "tsk_individual_table_keep_rows"),
+    ("tables.c", "subset_ragged_double_column"), ("tables.c", "subset_remap_ragged_id_column"),
 ] + [("tables.c", "tsk_%s_table_%s" % (t, f)) for (t, fs) in (
     ("edge", ["expand_main_columns", "expand_metadata", "add_row"]),
     ("site", ["expand_main_columns", "expand_ancestral_state", "expand_metadata", "add_row"]),
@@ -57,7 +59,7 @@ LEMMAS = ["lemmas.induction:offsets_transitive", "lemmas.induction:rank_bounds_a
           "lemmas.induction:newoff_bounds_and_monotone"]
 BOUNDED = [{"name": "list_model", "module": "standins.c13_listmodel", "timeout": 900, "asan": "thorough"}]
 UNVERIFIED = [              "edge tables created with TSK_TABLE_NO_METADATA (add_row contract covers the default variant)",
-              "tsk_*_table_update_row, _takeset_columns, _copy; _keep_rows of the tables other than nodes and mutations; _extend/_append_columns/_set_columns of the tables other than nodes",
+              "tsk_*_table_update_row, _takeset_columns, _copy; _keep_rows of the edge, site, migration, population and provenance tables; _extend/_append_columns/_set_columns of the tables other than nodes",
               "python/tskit/tables.py facade", "TreeSequence immutability (numpy flags in _tskitmodule.c)"]
 ASSUMPTIONS = [
     "ghost functions rank/newoff: their defining recurrences plus bounds and monotonicity are given as axioms in "
